@@ -240,7 +240,18 @@ impl AsmParser {
                 break;
             }
 
-            self.line += 1;
+            // Line numbers (and so addresses) are 16 bits wide
+            self.line = match self.line.checked_add(1) {
+                Some(line) => line,
+                None => {
+                    return Err(miette::miette!(
+                        severity = miette::Severity::Error,
+                        code = "parse::program_too_long",
+                        help = "a program cannot be longer than the 16-bit address space",
+                        "Program has too many statements",
+                    ))
+                }
+            };
         }
         Ok(self.air)
     }
